@@ -489,6 +489,72 @@ func c05Spaces(c *fw.Ctx) {
 			}
 		})
 
+	c.Space("generic-form-reused", "for every registered type with a presentation format: one RFC3597 value receives ToRFC3597 of the type's default record, then of the next type's default record, then of an RDATA-less record (RFC 2136 form, class ANY) — after each step its String() is what a fresh RFC3597 value prints for the same record, and that text parses to a record with the same type, class and RDATA; non-trivial: all", true,
+		func(emit func(func(*fw.R))) {
+			types := regTypes()
+			for ti, t := range types {
+				sp := wire.Specs[t]
+				if sp == nil || c05NoText[t] {
+					continue
+				}
+				ti, t := ti, t
+				emit(func(r *fw.R) {
+					r.Nontrivial()
+					mk := func(tt uint16) dns.RR {
+						s2 := wire.Specs[tt]
+						if s2 == nil || c05NoText[tt] {
+							return nil
+						}
+						rr, err := bind.ToGo(&wire.RR{Name: enum.Names[0], Type: tt, Class: 1, TTL: 60, Vals: enum.Default(s2)})
+						if err != nil {
+							return nil
+						}
+						return rr
+					}
+					steps := []dns.RR{mk(t), mk(types[(ti+1)%len(types)]), &dns.ANY{Hdr: dns.RR_Header{Name: bind.LibName(enum.Names[0]), Rrtype: t, Class: dns.ClassANY}}, mk(t)}
+					used := new(dns.RFC3597)
+					for i, rr := range steps {
+						if rr == nil {
+							continue
+						}
+						fresh := new(dns.RFC3597)
+						e1, e2 := used.ToRFC3597(rr), fresh.ToRFC3597(rr)
+						if e1 != nil || e2 != nil {
+							if (e1 == nil) != (e2 == nil) {
+								r.Fail("generic-form-reused/error", "step %d: ToRFC3597(%s) = %v into a used value, %v into a fresh one", i, rr.String(), e1, e2)
+							}
+							continue
+						}
+						if used.String() != fresh.String() {
+							r.Fail("generic-form-reused/text", "step %d: ToRFC3597(%s) prints %q from a value used before and %q from a fresh one", i, rr.String(), used.String(), fresh.String())
+							continue
+						}
+						back, err := dns.NewRR(used.String())
+						if err != nil || back == nil {
+							r.Fail("generic-form-reused/not-reparsable", "step %d: %q: %v", i, used.String(), err)
+							continue
+						}
+						if _, rdataLess := rr.(*dns.ANY); rdataLess {
+							// "\\# 0" of a registered type reads back as that type's zero value, which packs with its
+							// fixed-width fields (C01: a typed RDATA-less record is not demanded to re-pack to RDLENGTH 0);
+							// what is demanded here is the text, compared above
+							if back.Header().Rrtype != t || back.Header().Class != dns.ClassANY {
+								r.Fail("generic-form-reused/header-differs", "step %d: %q reads back as type %d class %d", i, used.String(), back.Header().Rrtype, back.Header().Class)
+							}
+							continue
+						}
+						b1, b2 := make([]byte, 70000), make([]byte, 70000)
+						n1, err1 := dns.PackRR(rr, b1, 0, nil, false)
+						n2, err2 := dns.PackRR(back, b2, 0, nil, false)
+						// TTL and Rdlength bookkeeping aside, the octets are the record's
+						if err1 != nil || err2 != nil || !bytes.Equal(b1[:n1], b2[:n2]) {
+							r.Fail("generic-form-reused/rdata-differs", "step %d: generic text %q reads back as %x (%v), the record is %x (%v)", i, used.String(), b2[:max(n2, 0)], err2, b1[:max(n1, 0)], err1)
+						}
+					}
+				})
+			}
+		})
+
 	c.Space("owner-class-ttl", "an A, an MX and a TXT record × every owner of the name alphabet × classes {1,3,4,254,255,0,2,65535} × TTLs {0,1,3600,2^31,2^32-1}; non-trivial: all", true,
 		func(emit func(func(*fw.R))) {
 			for _, own := range enum.Names {
